@@ -255,6 +255,16 @@ def check(prog: Program, res: Result, tier: str) -> None:
                             best = ("OK", r, r.msg)
                             break
                         best = best or ("BYPASS", r, extra)
+            if best is None:
+                # same guard re-worded: identical message and identical atoms up to the naming of multiply-assigned locals
+                # (their names are built from their definitions, which a refactoring may re-word)
+                want_n = frozenset(G.strip_locals(a) for a in want)
+                for r in list(f.raises) + list(f.delegated()):
+                    if (r.msg or "") == (e.get("msg") or "") and r.msg and frozenset(G.strip_locals(a) for a in r.conds) <= want_n:
+                        extra = relevant_extra([G.strip_locals(x) for x in r.exits_before], {G.strip_locals(x) for x in allowed}, want_n)
+                        if not extra:
+                            best = ("OK", r, "matched by message and structure")
+                            break
             where = prog.loc(f.fi)
             if best is None:
                 res.bad("GD-raise", fn, desc, where,
@@ -281,6 +291,14 @@ def check(prog: Program, res: Result, tier: str) -> None:
                         verdict = ("OK", "")
                         break
                     verdict = verdict or ("BYPASS", extra)
+            if verdict is None:
+                want_n = frozenset(G.strip_locals(a) for a in want)
+                for key, conds, exits in f.vcalls:
+                    if G.strip_locals(key) == G.strip_locals(e["key"]) and frozenset(G.strip_locals(a) for a in conds) <= want_n:
+                        extra = relevant_extra([G.strip_locals(x) for x in exits], {G.strip_locals(x) for x in allowed}, want_n)
+                        if not extra:
+                            verdict = ("OK", "")
+                            break
             where = prog.loc(f.fi)
             if verdict is None:
                 res.bad(rule, fn, desc, where, "the validating call is no longer made with these operands under these conditions")
